@@ -175,6 +175,18 @@ Theorem C18_row_result_recorded :
 Proof. exact fake_step_records. Qed.
 Print Assumptions C18_row_result_recorded.
 
+(* A nested object or friend ([OPush] … [OPop]) starts with empty local_vars and cannot change
+   those of the enclosing template: the fields after it are evaluated with exactly the
+   local_vars from before it (only the Faker log and the random draws advance). *)
+Theorem C18_nested_context_isolated :
+  forall tbl ni this_year inner rest stack s,
+    run_ops tbl ni this_year (OPush :: fake_ops inner ++ OPop :: rest) stack s
+    = (do '(vs, s1) <- run_fakes tbl ni this_year inner (mkSt [] (s_flog s) (s_draws s));
+       do ws <- run_ops tbl ni this_year rest stack (mkSt (s_lv s) (s_flog s1) (s_draws s1));
+       Ok (vs ++ ws)).
+Proof. exact nested_context_isolated. Qed.
+Print Assumptions C18_nested_context_isolated.
+
 (* ---- non-vacuity: concrete instances of the hypotheses ---- *)
 Open Scope string_scope.
 
@@ -234,3 +246,18 @@ Example C18_ex_lookup :
   /\ lookup (build ("postal_code" :: ex_fa) ex_sa) "Postal_Code" = Some (Sf, "postalcode")
   /\ lookup (build ("postal_code" :: ex_fa) ex_sa) "PostalCode" = Some (Sf, "postalcode").
 Proof. vm_compute. repeat split; reflexivity. Qed.
+
+(* a nested Contact with names of its own between the Account's names and the Account's
+   e-mail: the e-mail is made of the Account's names (the demo of notes/missed/C18_r2_mut1) *)
+Example C18_ex_nested :
+  let tbl := build ("last_name" :: ex_fa) ex_sa in
+  run_ops tbl [] 2026
+    [OPush; OFake "FirstName" true; OFake "LastName" true;
+     OPush; OFake "first_name" true; OFake "last_name" true; OPop;
+     OFake "Email" true; OPop] []
+    (mkSt [] [("first_name", of_string "Jackson"); ("last_name", of_string "Miles");
+              ("first_name", of_string "Bernard"); ("last_name", of_string "Norton");
+              ("safe_domain_name", of_string "example.org")] [(60, 27); (71, 22)])
+  = Ok [of_string "Jackson"; of_string "Miles"; of_string "Bernard"; of_string "Norton";
+        of_string "J.Miles@example.org"].
+Proof. vm_compute. reflexivity. Qed.
